@@ -92,6 +92,7 @@ def eval_rule(rule, rel):
 
 
 AGG = {'+=': sum, 'Min=': min, 'Max=': max}
+ROW_CAP = 200000     # beyond this the engine side is a performance test, not a semantic one
 
 
 def eval_pred(p, rel):
@@ -102,11 +103,19 @@ def eval_pred(p, rel):
   if p['kind'] == 'distinct':
     rows = Counter({k: 1 for k in rows})
   elif p['kind'] == 'agg':
+    # multiplicities can be astronomically large (products along joins): never expand them
     groups = {}
     for k, m in rows.items():
-      groups.setdefault(k[:-1], []).extend([k[-1]] * m)
-    f = AGG[p['op']]
-    rows = Counter({k + (f(v),): 1 for k, v in groups.items()})
+      g, v = k[:-1], k[-1]
+      if p['op'] == '+=':
+        groups[g] = groups.get(g, 0) + v * m
+      elif p['op'] == 'Min=':
+        groups[g] = v if g not in groups else min(groups[g], v)
+      else:
+        groups[g] = v if g not in groups else max(groups[g], v)
+    rows = Counter({k + (v,): 1 for k, v in groups.items()})
+  if sum(rows.values()) > ROW_CAP:
+    raise OverflowError('reference relation %s has more than %d rows' % (p['name'], ROW_CAP))
   return rows
 
 
